@@ -2449,12 +2449,14 @@ fn main() {
             v
         }
     } else {
-        out.rule = "exhaustive: every push/resume/reconnect/advance/cancel/replay sequence of length <= 4 over alphabet c13 (21 ops: chunk sizes 0-2 x wire overhead 0-1, resumes at 0-4 and wrong file) for capacities 0,2,3,2^64-1, length <= 5 for capacity 2, and length <= 7 over the 8-op alphabet c13s for capacities 0,2,3 (thorough: <= 5 all capacities, <= 8 for capacity 2 in the dev profile); random: the first 12 histories cross window and capacity in {0, 1, 2^64-1}; one call in 40 is repeated 2-256 times back to back; histories of <= 200 ops with capacities 0..2^64-1, bodies 0-600 bytes, logical != wire lengths, resumes at ring boundaries / trailing edge / mid-chunk / evicted offsets / hostile values. Distinct by op line; non-trivial = the op changed the observable state or returned something other than unit/timeout".into();
+        out.rule = "exhaustive: every push/resume/reconnect/advance/cancel/replay sequence of length <= 4 over alphabet c13 (21 ops: chunk sizes 0-2 x wire overhead 0-1, resumes at 0-4 and wrong file) for capacities 0,2,3,2^64-1, length <= 5 for capacity 2, and length <= 7 over the 8-op alphabet c13s for capacities 0,2,3 (thorough: <= 5 for capacities 2 and 3, <= 8 for capacity 2 in the dev profile); random: the first 12 histories cross window and capacity in {0, 1, 2^64-1}; one call in 40 is repeated 2-256 times back to back; histories of <= 200 ops with capacities 0..2^64-1, bodies 0-600 bytes, logical != wire lengths, resumes at ring boundaries / trailing edge / mid-chunk / evicted offsets / hostile values. Distinct by op line; non-trivial = the op changed the observable state or returned something other than unit/timeout".into();
         let inf = u64::MAX;
         if thorough {
             let mut v = vec![];
             for (i, cap) in [0, 2, 3, inf].iter().enumerate() {
-                v.push(format!("enum e{} c13.{} 5 3", i, cap));
+                // the 21-op alphabet to length 5 (4.1 M sequences each) for the two capacities where eviction is
+                // partial; 0 and 2^64-1 stay at the quick depth
+                v.push(format!("enum e{} c13.{} {} 3", i, cap, if *cap == 2 || *cap == 3 { 5 } else { 4 }));
                 // the statement's bound (8 operations) once: capacity 2, dev profile (16.7 M sequences); 7 elsewhere
                 v.push(format!("enum s{} c13s.{} {} 4", i, cap, if cfg!(debug_assertions) && *cap == 2 { 8 } else { 7 }));
             }
